@@ -252,6 +252,8 @@ func startWorker(self string, u *Unit) (*workerProc, error) {
 	dir := u.Dir
 	if dir == "" {
 		dir = repoRoot()
+	} else if !filepath.IsAbs(dir) {
+		dir = filepath.Join(verifRoot(), dir)
 	}
 	tags := u.Tags
 	if tags == "" {
